@@ -155,8 +155,18 @@ def run(ctx):  # noqa: C901
         ok = t[0] == "neg" and t[1][0] == "call" and t[1][1] == "numpy.sum" and "numpy.log2" in repr(t)
         ctx.ob("R-PRED", vn, "entropy == -sum p log2 p", ok, "closed form" if ok else f"returns {show(t)[:80]}", rn)
     flt = [n for n in walk_no_nested(vn.node) if isinstance(n, ast.ListComp) and n.generators[0].ifs]
-    okf = bool(flt) and unparse(flt[0].generators[0].ifs[0]).replace(" ", "") in ("eig>0", "0<eig")
-    ctx.ob("R-PRED", vn, "zero eigenvalues are dropped (0 log 0 = 0)", okf, "eig > 0 filter" if okf else "the positive-eigenvalue filter is gone or altered")
+    from .. import pmatch
+    okf = None
+    if flt:
+        g = flt[0].generators[0]
+        tv = unparse(g.target)
+        cond = g.ifs[0]
+        mt = lambda src: pmatch.match(src, cond) is not None  # noqa: E731
+        simple = isinstance(cond, ast.Compare) and len(cond.ops) == 1 and {type(cond.left), type(cond.comparators[0])} <= {ast.Name, ast.Constant, ast.UnaryOp}
+        okf = True if (mt(f"{tv} > 0") or mt(f"0 < {tv}") or mt(f"{tv} > 0.0") or mt(f"0.0 < {tv}")) else False if simple else None
+    else:
+        okf = False if not any(isinstance(n, ast.Compare) for n in walk_no_nested(vn.node)) else None
+    ctx.ob("R-PRED", vn, "zero eigenvalues are dropped (0 log 0 = 0)", okf, "eigenvalue > 0 filter" if okf else "the positive-eigenvalue filter is gone or altered (0 * log2(0) = nan)" if okf is False else "filter not recognised", required=okf is not None)
     # l1 coherence: positive control (basis dependent by definition) + formula
     from ..cov import BASIS, CovTyper
     ct = CovTyper(m, l1, ["rho"])
@@ -204,8 +214,13 @@ def run(ctx):  # noqa: C901
         ok = all(isinstance(b.get(k), ast.Name) and b[k].id == v for k, v in (("rho", "rho"), ("dim", "dim"), ("k_param", "k")))
         ctx.ob("R-THREAD", sv, "schmidt_decomposition(rho, dim, k)", ok, "k largest coefficients with the caller's dims" if ok else f"called as {unparse(c)}", c)
     Ns = Normalizer(m, sv, inline=False)
-    big = [n for n in walk_no_nested(sv.node) if isinstance(n, ast.If) and "min(dim)" in unparse(n.test)]
-    okb = bool(big) and Ns(big[0].test) == ("cmp", "<=", ("call", "builtins.min", (("n", "dim"),), ()), ("n", "k"))
+    big = [n for n in walk_no_nested(sv.node) if isinstance(n, ast.If) and "builtins.min" in repr(Ns(n.test))]
+    want_big = ("cmp", "<=", ("call", "builtins.min", (("n", "dim"),), ()), ("n", "k"))
+    okb = bool(big) and Ns(big[0].test) == want_big
+    if big and not okb and big[0].orelse and Ns(big[0].test) == Ns._not(want_big):
+        # branches exchanged: the shortcut (plain norm, no Schmidt decomposition) must then be the else branch
+        okb = not any(isinstance(x, ast.Call) and "schmidt_decomposition" in unparse(x.func) for s_ in big[0].orelse for x in ast.walk(s_)) and \
+            any(isinstance(x, ast.Call) and "schmidt_decomposition" in unparse(x.func) for s_ in big[0].body for x in ast.walk(s_))
     ctx.ob("R-PRED", sv, "k >= min(dim) => plain Euclidean norm", okb, "shortcut condition" if okb else "shortcut condition changed")
     so = m.func("sk_norm.sk_operator_norm")
     _monotone_bounds(ctx, so)
@@ -218,7 +233,7 @@ def run(ctx):  # noqa: C901
         ctx.ob("R-SDP", so, f"relaxation at line-order {sk.probs.index(p)}: objective sense == max (upper bound)", p.sense == "max", p.sense or "?", p.node)
     reach = sk.reaching()[0]
     n_psd = [c for c in reach if c.rel == ">>" and c.lhs == ("n", "rho") and c.rhs == ("c", 0)]
-    n_tr = [c for c in reach if c.rel == "<=" and c.rhs == ("c", 1) and "cvxpy.trace" in repr(c.lhs)]
+    n_tr = [c for c in reach if (c.rel == "<=" and c.rhs == ("c", 1) and "cvxpy.trace" in repr(c.lhs)) or (c.rel == ">=" and c.lhs == ("c", 1) and "cvxpy.trace" in repr(c.rhs))]
     ctx.ob("R-SDP", so, "every relaxation keeps rho >= 0 and Tr rho <= 1", len(n_psd) >= 2 and len(n_tr) >= 2, f"{len(n_psd)} PSD / {len(n_tr)} trace constraints" )
     ppt = [c for c in reach if c.rel == ">>" and c.rhs == ("c", 0) and "partial_transpose" in repr(c.lhs)]
     ctx.ob("R-SDP", so, "PPT constraints present in the k == 1 relaxations", len(ppt) >= 2, f"{len(ppt)} PPT constraints")
@@ -240,7 +255,16 @@ def run(ctx):  # noqa: C901
         ctx.ob("R-BIND", ipr, "two Schmidt coefficients requested (product iff the second vanishes)", ok, "k_param=2" if ok else f"k_param={unparse(b['k_param']) if isinstance(b.get('k_param'), ast.AST) else '?'}", c)
     Np = Normalizer(m, ipr, inline=False)
     tst = [n for n in walk_no_nested(ipr.node) if isinstance(n, ast.NamedExpr) and isinstance(n.value, ast.Compare)]
-    okt = bool(tst) and "singular_vals[1]" in unparse(tst[0].value.left) and isinstance(tst[0].value.ops[0], ast.LtE)
+    sv_names = {n.targets[0].elts[0].id for n in walk_no_nested(ipr.node) if isinstance(n, ast.Assign) and isinstance(n.targets[0], ast.Tuple) and n.targets[0].elts and isinstance(n.targets[0].elts[0], ast.Name)
+                and isinstance(n.value, ast.Call) and m.resolve_call(ipr, n.value).key.endswith("schmidt_decomposition.schmidt_decomposition")}
+    lft = tst[0].value.left if tst else None
+    opk = type(tst[0].value.ops[0]) if tst else None
+    if tst and not isinstance(lft, ast.Subscript) and isinstance(tst[0].value.comparators[0], ast.Subscript) and opk in (ast.GtE, ast.Gt):
+        # bound >= s[1]  is  s[1] <= bound
+        lft = tst[0].value.comparators[0]
+        opk = ast.LtE if opk is ast.GtE else ast.Lt
+    okt = bool(tst) and isinstance(lft, ast.Subscript) and isinstance(lft.value, ast.Name) and lft.value.id in sv_names and isinstance(lft.slice, ast.Constant) and lft.slice.value == 1 \
+        and opk in (ast.LtE, ast.Lt)
     ctx.ob("R-PRED", ipr, "product iff second Schmidt coefficient <= tolerance", okt, "singular_vals[1] <= eps-scaled bound" if okt else "the product criterion changed")
 
 
